@@ -24,7 +24,7 @@ META = {
               'effect may reach memory aliasing a parameter or stored field (set_snr excepted); no global/class-attribute writes; lazily set trainer attributes follow the '
               '`is None` + assert protocol; random numbers only when initialization is None; a cACGMM fit continued from a model starts with the E-step and has all M-step inputs assigned. '
               'Decides necessary conditions, not bit-exact reproducibility. '
-              'Also: the dimension a stateful trainer remembers / compares is the last axis of the observation. Also: an array returned by an lru_cache / cache function is storage shared between calls: no in-place effect reaches it.',
+              'Also: the dimension a stateful trainer remembers / compares is the last axis of the observation. Also: an array returned by an lru_cache / cache function is storage shared between calls: no in-place effect reaches it. A public memoised function does not return writable arrays.',
         note='Trusted: numpy view/copy table; results of unmodelled library calls may alias any argument (reported as unresolved, never as a violation). Cython variants not analysed.',
         design='DESIGN.md section 3 (C20)'),
     'C02': dict(
@@ -72,7 +72,7 @@ META = {
         level='Roles of every operand of solve / stable_solve / trace / column selection in MVDR, Souden MVDR, WMWF, LCMV and the reference-channel criterion, exactly-one-conjugate '
               'inner products, arg-MAX of target-over-noise SNR, and that stacks of steering vectors reach numpy.linalg.solve as explicit column matrices. '
               'Optimality inequalities and scaling invariances are NOT decided. '
-              'Also: a channel selection vector contracts the column index of the WMWF filter matrix. Also: the automatic reference channel is ranked on the matrix whose column is returned.',
+              'Also: a channel selection vector contracts the column index of the WMWF filter matrix. Also: the automatic reference channel is ranked on the matrix whose column is returned. Also: every alternative of the MVDR numerator comes out of a solver; a hand-written two-sensor closed form is compared with adj(Phi) a as a polynomial identity.',
         note='Trusted: NumPy >= 2 semantics of linalg.solve, documented argument shapes.',
         design='DESIGN.md section 3 (C11)'),
     'C12': dict(
@@ -88,7 +88,7 @@ META = {
         level='For all 12 names x {plain, +ban} plus chN: the primitives called, their order, the slots they are chained through and the returned value equal the composition the name spells. '
               'apply_beamforming_vector contracts conj(w) with the sensor axis; every literal axis in (..., )-documented beamforming functions counts from the right (phase_correction: -2); '
               'stable_solve falls back per matrix, index-local; MVDR solves stacks as columns. Finite-ness on singular input is NOT decided. '
-              'Also: phase_correction rotates bin f by the phase of w_f^H w_{f-1} summed over sensors and accumulates phasors by a product; every data reduction in the per-index helpers names its axis. Also: every array indexed by the flat loop index of stable_solve is a stack flattened to 3-D; no dropped clamp in the beamformer modules. Also: the helpers that pick their own reference channel rank the columns of the matrix they return a column of (shared with C11).',
+              'Also: phase_correction rotates bin f by the phase of w_f^H w_{f-1} summed over sensors and accumulates phasors by a product; every data reduction in the per-index helpers names its axis. Also: every array indexed by the flat loop index of stable_solve is a stack flattened to 3-D; no dropped clamp in the beamformer modules. Also: the helpers that pick their own reference channel rank the columns of the matrix they return a column of (shared with C11). Also: _get_gev_vector / get_lcmv_vector name the axis of every data reduction that is not taken of the current element of a loop over the leading index.',
         note='Trusted: the naming convention of the wrapper itself; exceptions table for front-broadcast / fixed-layout axes.',
         design='DESIGN.md section 3 (C13)'),
     'C14': dict(
@@ -101,7 +101,7 @@ META = {
     'C15': dict(
         technique='static analysis: exhaustive arg-max loop recogniser (R-SEL c) + orientation typing of score matrices (einsum structure, transposes, argument order)',
         level='Optimality clause: complete strict arg-max enumeration with objective sum_k score[k, perm[k]]. Inversion clause, structural part: all score metrics are rows = reference / '
-              'columns = estimate, assignment maps row -> column, apply_mapping gathers the estimate, the oracle wires (mask, reference_mask) and its configured algorithm; the cos score is free of the scale of its arguments (exact normalisers only). The euclidean score is the negative norm of the row difference, laid out [independent..., reference, estimate] (axis labels followed through every pure reordering; the expansion |a|^2+|b|^2-2<a,b> is a deviation). '
+              'columns = estimate, assignment maps row -> column, apply_mapping gathers the estimate, the oracle wires (mask, reference_mask) and its configured algorithm; the cos score is free of the scale of its arguments (exact normalisers only). The euclidean score is the negative norm of the row difference, laid out [independent..., reference, estimate] (axis labels followed through every pure reordering; the expansion |a|^2+|b|^2-2<a,b> is a deviation). multiply returns the signed contraction itself. '
               'Exact inversion for every permutation field is NOT decided.',
         note='Shares rule instances with C14.',
         design='DESIGN.md section 3 (C15)'),
@@ -150,7 +150,7 @@ META = {
         level='Both SXR functions compute _sxr(S, I+N), _sxr(S, I), _sxr(S, N) with identical S and the first denominator the sum of the others (for the pure ratio _sxr); own-source exclusion; input_sxr pools the sensors in the power domain (operands of _sxr are sensor means under average_channels, dB values are reduced over the source axis only); '
               'complete enumeration + arg-MAX output selection; return_dict True / prefix / False specialisations return dict / dict / tuple for both siblings; si_sdr reduces over -1 only with the '
               'projection form; set_snr exponent. dB values and scaling laws as numbers are NOT decided. '
-              'Also: power helper = mean |X|^2 over the axis parameter, set_snr multiplies the noise by the factor measured with keepdims over the same axis, the captured power is evaluated for every enumerated selection. Also: SDR, SIR and SNR go through the same post-processing after _sxr. Also: the interference is a SUM of the powers of the other sources, not total minus own (cancellation). Also: every power of the SXR functions is taken over the last (time) axis.',
+              'Also: power helper = mean |X|^2 over the axis parameter, set_snr multiplies the noise by the factor measured with keepdims over the same axis, the captured power is evaluated for every enumerated selection. Also: SDR, SIR and SNR go through the same post-processing after _sxr. Also: the interference is a SUM of the powers of the other sources, not total minus own (cancellation). Also: every power of the SXR functions is taken over the last (time) axis. Also: the entries that are averaged over the sources are not selected by the value of the ratio itself.',
         note='Trusted: metric definitions in the statement.',
         design='DESIGN.md section 3 (C19)'),
 }
